@@ -11,7 +11,7 @@ def programs(rng, n):
     """closed programs (every waiter is woken by somebody)"""
     out = []
     for i in range(n):
-        kind = [0, 1, 0, 2, 0, 3][i % 6]
+        kind = [0, 1, 0, 2, 0, 3, 4, 0, 4][i % 9]
         lines = []
         if kind == 0:      # wait / wake
             nw = rng.choice([1, 2, 2, 3])
@@ -52,6 +52,21 @@ def programs(rng, n):
                 for j in range(k):
                     lines.append("P %d push %d" % (t, t * 100 + j)); total += 1
             lines += ["P %d pop" % nth] * total
+        elif kind == 4:    # delegate waiters (callbacks instead of parked threads), some of which wake the next waiter from inside their callback
+            nw = rng.choice([0, 1, 2])                      # thread waiters 1..nw, thread nw+1 enqueues the delegates, thread nw+2 wakes
+            nth = nw + 2
+            lines.append("R sync %d" % nth)
+            for w in range(1, nw + 1):
+                lines.append("P %d wait %d" % (w, rng.choice([0, 0, 1])))
+            nd = rng.choice([1, 2, 3, 3])
+            for k in range(nd):
+                lines.append("P %d denq %d %d" % (nw + 1, 11 + k, 1 if rng.random() < 0.5 else 0))
+            total = nw + nd
+            if rng.random() < 0.6:
+                lines.append("P %d unwait_all %d" % (nth, rng.randrange(1, 50)))
+            else:
+                for k in range(total):
+                    lines.append("P %d unwait_one %d" % (nth, rng.randrange(1, 50)))
         else:              # mixed: wake + queue + lock
             lines.append("R sync 4")
             lines += ["P 1 wait %d" % rng.choice([0, 1, -1]), "P 1 push 101", "P 2 lock", "P 2 unlock", "P 2 wait 0", "P 3 push 301",
